@@ -491,7 +491,10 @@ impl Check for C17 {
                                 v.iter().map(|c| (c.site().to_string(), c.name().to_string(), c.volume().as_number(), c.date_time().map(|d| d.timestamp_millis()))).collect()
                             })),
                             Call::DownloadChunk(name, _) => {
-                                let id = ChunkIdentifier::new(site2.clone(), VolumeIndex::new(volume), name.clone(), None);
+                                // the identifier may already carry a time (e.g. from an earlier listing
+                                // of an object that has been rewritten since): it must not leak out
+                                let preset = if name.len() % 2 == 0 { Some(Utc.timestamp_millis_opt(s3sim::EPOCH_MS - 86_400_000 - 1000 * name.len() as i64).single().unwrap()) } else { None };
+                                let id = ChunkIdentifier::new(site2.clone(), VolumeIndex::new(volume), name.clone(), preset);
                                 Res::Chunk(realtime::download_chunk(&site2, &id).await.map(|(i, c)| {
                                     (i.site().to_string(), i.name().to_string(), i.volume().as_number(), i.date_time().map(|d| d.timestamp_millis()), c.data().to_vec(), matches!(c, Chunk::Start(_)))
                                 }))
